@@ -330,6 +330,8 @@ def run_check(pid: str, tier: str, seed: int, procs: int, only: str | None = Non
         f"violations={len(fresh)} wall={wall:.1f}s"
     )
     if fresh:
+        hist = Counter((v.get("function"), v.get("kind")) for v in fresh)
+        print("  violation kinds: " + ", ".join(f"{f}/{k} x{n}" for (f, k), n in hist.most_common()))
         for v in fresh[:10]:
             path = write_replay(pid, v)
             print(f"  {v.get('function')} {v.get('kind')}: {str(v.get('detail'))[:300]}")
